@@ -61,6 +61,78 @@ def impl_strand(case):
     return out
 
 
+def impl_offfamily_strand(arg):
+    """an enzyme OUTSIDE the theorems' family (ambiguous site, ...) whose generic structures compile: instances of the
+    structure with exactly the two recognition sites (one per strand) and one-letter corruptions of them, typed on
+    both strands by the implementation alone"""
+    import random
+    import re
+    from Bio import Restriction
+    from Bio.Seq import Seq
+    from moclo.core import AbstractModule, AbstractVector
+    from moclo.regex import DNARegex
+    from harness import implutil, pattern
+    name, seed, n = arg
+    rng = random.Random(seed)
+    enz = getattr(Restriction, name)
+    lm = dict(DNARegex._lettermap)
+    site = str(enz.site)
+    rcsite = str(Seq(site).reverse_complement())
+    def site_rx(w):
+        return re.compile("(?=%s)" % "".join(lm.get(ch, ch) for ch in w), re.I)
+    fw, rv = site_rx(site), site_rx(rcsite)
+    out = {"compared": 0, "valid": 0, "bad": None}
+    # the enzymes the property is about except for the letters of the site: one cut downstream of a non-palindromic
+    # site, 5' overhang (for the others structure() is not the structure of a Golden Gate plasmid)
+    try:
+        size = len(site)
+        off, ovh = enz.fst5 - size, -enz.ovhg
+        if enz.is_palindromic() or not enz.cut_once() or not enz.is_5overhang() or off < 0 or ovh < 1 \
+                or enz.fst3 != off + ovh or enz.elucidate() != site + "N" * off + "^" + "N" * ovh + "_N":
+            return out
+    except Exception:  # noqa
+        return out
+    for base in (AbstractModule, AbstractVector):
+        cls = type(str("S_%s_%s" % (base.__name__, name)), (base,), {"cutter": enz})
+        try:
+            cls(implutil.mk_circular("ACGT", "r"))
+            text = cls.structure()
+            DNARegex(text)
+            items = pattern.tokenize(text, lm)
+        except Exception:  # noqa  (refused, or outside what compiles: C17's business)
+            continue
+        for _ in range(n):
+            w = gens.instantiate(rng, items, star=(0, 8))
+            if rng.random() < 0.3 and w:
+                i = rng.randrange(len(w))
+                w = w[:i] + rng.choice("ACGT") + w[i + 1:]
+            k = rng.randrange(len(w)) if w else 0
+            w = w[k:] + w[:k]
+            if len(w) < len(site) + 2:
+                continue
+            d = w + w[:len(site) - 1]
+            occ = len(fw.findall(d)) + (len(rv.findall(d)) if rcsite.upper() != site.upper() else 0)
+            if occ != 2:
+                continue
+            rec = implutil.mk_circular(w, "r")
+            a = implutil.typed_info(cls(rec))
+            b = implutil.typed_info(cls(rec.reverse_complement(id=True, name=True, description=True)))
+            out["compared"] += 1
+            out["valid"] += 1 if a["valid"] else 0
+            what = None
+            if a.get("valid_exc") or b.get("valid_exc"):
+                continue            # totality is C17's
+            if bool(a["valid"]) != bool(b["valid"]):
+                what = "valid=%s, its reverse complement valid=%s" % (a["valid"], b["valid"])
+            elif a["valid"]:
+                r = lambda x: str(Seq(x).reverse_complement())
+                if b["up"] != r(a["down"]) or b["down"] != r(a["up"]):
+                    what = "overhangs %s/%s, its reverse complement reports %s/%s" % (a["up"], a["down"], b["up"], b["down"])
+            if what and out["bad"] is None:
+                out["bad"] = {"enzyme": name, "role": base.__name__, "seq": w, "what": what}
+    return out
+
+
 def check_strand(case, o):
     """the symmetric expectation, from the implementation's own forward answers"""
     f, r = o["fwd"], o["rev"]
@@ -156,9 +228,30 @@ def run(ctx):
         ctx.disagreements.append({"case": cases[b], "impl": obs[b]["rev"],
                                   "observable": "outcome and product of the assembly of the reverse complements vs Pipeline.assemble_raw",
                                   "model_fn": "Pipeline.assemble_raw"})
+    offfamily(ctx)
+
+
+def offfamily(ctx):
+    """strand symmetry asked of the implementation alone for the enzymes the theorems do not cover"""
+    fam = set(e["name"] for e in ctx.tables["enzymes"])
+    names = [n for n in common.run_impl(ctx, "C17", "list_offfamily", [None], shards=1)[0] if n not in fam]
+    args = [(n, ctx.rng.randrange(1 << 30), 150 if ctx.quick else 1500) for n in names]
+    for (n, seed, k), o in zip(args, common.run_impl(ctx, "C12", "impl_offfamily_strand", args)):
+        ctx.evaluations += o["compared"]
+        ctx.count("off-family:compared", o["compared"])
+        ctx.count("off-family:valid", o["valid"])
+        if o["bad"]:
+            ctx.violations.append({"signature": "C12:off-family:" + o["bad"]["what"].split(",")[0].split(" ")[0],
+                                   "what": "generic %s over %s on %s: %s" % (o["bad"]["role"], n, o["bad"]["seq"], o["bad"]["what"]),
+                                   "input": {"offfamily": [n, seed, k], "found": o["bad"]}})
 
 
 def replay(ctx, data):
+    v0 = data.get("violation") or {}
+    if "offfamily" in (v0.get("input") or {}):
+        o = common.run_impl(ctx, "C12", "impl_offfamily_strand", [tuple(v0["input"]["offfamily"])])[0]
+        print("implementation:", o)
+        return 1 if o["bad"] else 0
     v = data.get("violation") or {}
     case = v.get("input") or (data.get("correspondence_disagreements") or [{}])[0].get("case")
     if not case:
